@@ -109,7 +109,8 @@ class Prop(PropBase):
     def _val(self, kind, what):
         u, Time, np = self.u, self.Time, self.np
         if what in ("rate", "cf", "bw"):
-            return {"pos": 2.5 * u.kHz if what != "cf" else 400 * u.MHz, "zero": 0 * u.Hz, "neg": -3 * u.MHz,
+            # (3.2 MHz does not survive a conversion to Hz and back bit for bit: 3.2e6 * 1e-6 != 3.2)
+            return {"pos": 3.2 * u.MHz if what != "cf" else 400 * u.MHz, "zero": 0 * u.Hz, "neg": -3 * u.MHz,
                     "nan": float("nan") * u.MHz,      # a scalar frequency, but not a positive one
                     "string": "400 MHz",              # parseable text is still not a Quantity
                     "nonScalar": np.array([1.0, 2.0]) * u.kHz, "nonScalar1": np.array([4.0]) * u.MHz,
@@ -128,7 +129,7 @@ class Prop(PropBase):
              "dask": isinstance(z.data, self.da.Array)}
         if isinstance(z, self.pb.RadioSignal):
             d["align"] = z.freq_align
-            d["bw_is_rate"] = bool(u.isclose(z.chan_bw, z.sample_rate, rtol=1e-12))
+            d["bw_is_rate"] = bool(z.chan_bw == z.sample_rate)
             d["nchan"] = int(z.nchan)
         if isinstance(z, self.pb.DualPolarizationSignal):
             d["pol"] = z.pol_type
